@@ -190,3 +190,7 @@ func SetJSONSize(obj map[string]interface{}, size int64) {
 	}
 	obj["pad"] = string(pad)
 }
+
+// Repeat tells a harness how often to run its body: once under the executor (which explores map iteration orders
+// itself), many times natively (Go randomises map iteration order per range statement).
+func Repeat() int { return 64 }
